@@ -5,11 +5,25 @@ UNITS = ["http.c", "evutil.c"]
 FUNCTIONS = ["evhttp_uriencode", "evhttp_decode_uri_internal", "evhttp_uridecode", "evhttp_decode_uri",
              "evhttp_parse_query_impl", "evhttp_parse_query_str", "evhttp_parse_query_str_flags",
              "evhttp_htmlescape", "html_replace"]
-BOUNDS = "work in progress"
-OUT = "work in progress"
-TEXT = "work in progress"
-NOTE = ""
-ASSUMPTIONS = []
+BOUNDS = ("quick: byte strings <= 6 (codec, htmlescape), query strings <= 5; thorough: <= 8 / <= 6. Every byte symbolic (0x01-0xff; 0x00 too where the API takes "
+          "an explicit length); all three '+' modes of the decoder; all 4 flag combinations of the query parser (one obligation each) plus the flag-less entry point")
+OUT = ("evhttp_parse_query (deprecated whole-URI entry: URI parser C28 + the same splitter); allocation failure paths; strings longer than the bound; "
+       "evhttp_encode_uri is evhttp_uriencode(str,-1,0) and is covered through it; the evbuffer inside evhttp_uriencode is the contract model "
+       "(env/evbuf_contract.h: append/remove/length as C12 establishes them for buffer.c), not buffer.c itself")
+TEXT = ("decode: evhttp_decode_uri_internal on exact-size objects equals the reference decoder (RFC 3986 2.1; '+' handling per event2/http.h), returns the number "
+        "of bytes written, NUL-terminates, writes at most length+1 bytes and never reads outside its input (cbmc pointer checks). uridecode: the public wrappers "
+        "allocate strlen+1, report the decoded size, treat any non-zero decode_plus as 1. roundtrip: evhttp_uriencode output == reference encoder modulo hex-digit case "
+        "(unreserved bytes verbatim, space as '+' only in plus mode, everything else %XX), is allocated to fit, contains only unreserved bytes / '+' / %XX, and "
+        "evhttp_uridecode(enc, same mode) returns the input bytes and length (embedded NUL included). htmlescape: no raw < > \" ' in the output, every & starts one of "
+        "the five entities, unescaping gives the input, allocation fits exactly. query_*: return value, number, order, keys and values of the pairs == reference "
+        "splitter; a failed parse leaves an empty queue; nothing leaks.")
+NOTE = ("Reference splitter (ref/uricodec_ref.h) written from event2/http.h: pairs separated by '&' (a trailing '&' is tolerated), split at the first '=', key non-empty; "
+        "keys are taken verbatim (NOT percent-decoded, as the documented examples and regress expect), values are decoded with '+' -> space and end at a decoded NUL "
+        "(C string API); QUERY_LAST_VAL compares keys ASCII-case-insensitively because the result is an evkeyvalq. Hex-digit case of the encoder is not prescribed "
+        "(RFC 3986 2.1 'should'), a lower-case mutation passes by design. Trusted: cbmc, env/http_fmt.h string/strtol models, env/http_stralloc.h (literal-size string "
+        "objects; request sizes recorded and asserted), env/evbuf_contract.h + evbuf_contract_printf.h, ref/uricodec_ref.h.")
+ASSUMPTIONS = ["allocation does not fail", "evbuffer_new/add/add_printf/remove/get_length behave as documented (contract model, property C12)",
+               "C strings handed to the API are NUL-terminated and at most the stated bound long"]
 DESIGN_REF = "DESIGN.md §5 C29"
 
 def obligations(tier):
@@ -33,12 +47,25 @@ def obligations(tier):
              timeout=600, mem_gb=6, desc="evhttp_htmlescape, C string <= %d" % n),
     ]
     n = 5 if tier == "quick" else 6
+    # exact-size heap objects (VP_ALLOC_EXACT): an overrun of what the functions allocate is a cbmc pointer-check failure
+    ne = 4 if tier == "quick" else 5
+    DE = ["VP_N=%d" % ne, "VP_STR_OBJ=40", "VP_ALLOC_EXACT", "VP_BYTES_MAX=%d" % (3 * ne + 5)]
+    obs += [
+        dict(name="htmlescape_exact", harness="C29_codec.c", entry="harness_htmlescape", defines=DE, unwind=6 * ne + 2,
+             unwindset=["vp_memcpy.0:7", "ruc_starts.0:8", "evhttp_htmlescape.0:%d" % (ne + 1), "evhttp_htmlescape.1:%d" % (ne + 1), "vp_cstring.0:%d" % (ne + 1)],
+             timeout=900, mem_gb=6, desc="evhttp_htmlescape with exact-size allocations (heap overrun = pointer-check failure), C string <= %d" % ne),
+        dict(name="uridecode_exact", harness="C29_codec.c", entry="harness_uridecode", defines=DE, unwind=ne + 2, unwindset=US,
+             timeout=900, mem_gb=6, desc="evhttp_uridecode/evhttp_decode_uri with exact-size allocations, C string <= %d" % ne),
+    ]
+    if tier != "quick":
+        obs.append(dict(name="uridecode_ndebug", harness="C29_codec.c", entry="harness_uridecode", defines=D, unwind=n + 2, unwindset=US, ndebug=True,
+             timeout=900, mem_gb=4, desc="NDEBUG twin of uridecode (EVUTIL_ASSERT(n >= 0) compiled out as in the shipped build)"))
     for fl, nm in ((-1, "str"), (0, "f0"), (1, "lax"), (2, "last"), (3, "lax_last")):
         lax = fl >= 0 and (fl & 1)
         it = (n + 1) if lax else (n // 3 + 1)       # iterations of the pair loop: every pair consumes >= 1 (lax) / >= 3 (strict) bytes
         obs.append(dict(name="query_" + nm, harness="C29_query.c", entry="harness_query",
              defines=["VP_N=%d" % n, "VP_STR_OBJ=%d" % (n + 2), "VP_FLAGS=%d" % fl],
              unwind=n + 2, unwindset=US + ["event_mm_strdup_.0:%d" % (n + 3), "evhttp_parse_query_impl.0:%d" % (it + 1)],
-             cbmc=["--object-bits", "10"], timeout=900, mem_gb=3,
+             cbmc=["--object-bits", "10"], timeout=900 if tier == "quick" else 2400, mem_gb=3,
              desc="evhttp_parse_query_str%s vs reference splitter, C string <= %d" % ("" if fl < 0 else "_flags(flags=%d)" % fl, n)))
     return obs
